@@ -8,6 +8,9 @@ CFG = {
         'bmtree.NewPath/noncanon': 'bmtree.NewPath with search bits below the prefix + PathLen/PathHeight/PathStr',
         'bmtree.PathStr/order': 'strings.Compare(bmtree.PathStr(w1), bmtree.PathStr(w2)) for two path words of one height',
         'bmtree.PathStr/parse': 'bmtree.NewPath(strconv.ParseUint(bmtree.PathStr(w), 2) << (h-len), len, h)',
+        'bmtree.PathStr/seq': 'bmtree.PathStr called consecutively on a list of path words (one executor)',
+        'bmtree.PathStr/bulk': 'bmtree.PathStr on > 65536 distinct path words (compact segments, both sides enumerate), every stride-th text digested + the first K rendered again',
+        'bmtree.PathStr/concurrent': 'bmtree.PathStr of 2-3 path words from 4-8 goroutines in tight loops; per path the set of distinct texts returned',
         'bmtree.NewPath/family': 'bmtree.NewPath for a node, its children, the next node outside its sub-tree and a second node'},
  'rule': 'a node is sent as (h, bit list) and BOTH sides build the word (Go: NewPath(bits<<(h-l), l, h)); '
          'cases = every height<=6 (thorough: 7) x every node x every ordered pair, every height 0..32 x every length x 7 '
@@ -22,11 +25,17 @@ CFG = {
          'NewPath/family = heights 0..5 (thorough: 6) x all ordered pairs, random heights 6..32 with r chosen as q / descendant / last leaf below q / '
          'next_out q or below it / ancestor / node just before q / independent, non-trivial unless both are the root; '
          'PathStr/order = the pairs of NewPath/family through the text of the paths; PathStr/parse = heights 0..32 x all lengths x 8 prefixes, non-trivial for non-root nodes; '
+         'SESSIONS (hidden state inside PathStr): PathStr/seq = heights 1..10 x every pair of nodes of different heights with equal PathBits and PathLen '
+         '(non-zero prefix) in the order A B A, random such pairs up to height 32, random mixed sessions with repeats; PathStr/concurrent = 16 (thorough 64) '
+         'cases of 2-3 paths x 4/6/8 goroutines x 10^4 iterations; PathStr/bulk = 66800 distinct paths of heights 17..20 rendered (every 61st text observed through a digest) then the first 16 again '
+         '(also as a corpus case = the first calls of a fresh process), followed by the fields cases of heights 1..3 (the first paths this process rendered); '
          'distinct = distinct (op,args)',
  'assumptions': ['0 <= h <= 32 and |q| <= h (the uint64 word has 32 bits for the search prefix and 32 for the mask)',
                  'PathHeight is claimed only for |q| >= 1 (the root\'s word is 0 for every height)',
                  'widening, NewPath/raw: searchingBits any uint64, length and height any int32 (a length outside 0..64 panics: bitmap.Mask is a [65]uint64)',
-                 'widening, PathFields/raw and NewPath/rebuild: any uint64'],
+                 'widening, PathFields/raw and NewPath/rebuild: any uint64',
+                 'sessions: the model of PathStr is a pure function; PathStr/concurrent and the ordering of calls inside a session are correspondence-only '
+                 '(the theorems say what every call must return, the operations check that the implementation returns it under that schedule)'],
  'trusted': ['strings.Compare modelled as Lib/Lex.v bytes_cmp, strconv.ParseUint(s, 2, 64) on \'0\'/\'1\' strings as Spec/PathWideSpec.v parse_bin (widening ops PathStr/order, PathStr/parse)',
              'fmt.Sprintf("%0*b") modelled definitionally as the zero-padded binary numeral (Model/BmtreePathStr.v: fmt_0b)'],
  'explanation': 'Theorems over the model: NewPath builds enc h q; PathLen/PathHeight/PathBits/PathMask/PathStr of enc h q; '
